@@ -49,6 +49,7 @@ class Model:
             "from func_adl import ObjectStream, func_adl_callable, register_func_adl_os_collection",
             "from func_adl.type_based_replacement import ObjectStreamInternalMethods",
             "T = TypeVar('T')",
+            "S = TypeVar('S')",
             "class MyIter(Iterable[T]):",
             "    def own(self, n: int = 3) -> int: ...",
             # a method named like an operator that a registered collection class also defines (RegColl.Take below), with a REQUIRED
@@ -81,6 +82,10 @@ class Model:
         self.sigs[("MyIter", "own")] = [("n", "int", 3)]
         for cls in ("Trk", "Jet", "Event"):
             src.append(f"class {cls}(Tagged, Calibrated):" if cls == "Jet" else f"class {cls}:")
+            # a method whose result type is a type variable nothing binds: the call is still a known call
+            src.append("    def gen(self, x: S, strict: bool = False, level: int = 3) -> S: ...")
+            self.sigs[(cls, "gen")] = [("x", "S", E), ("strict", "bool", False), ("level", "int", 3)]
+            self.ret[(cls, "gen")] = "Any"
             for m in names:
                 params = gen_signature(rnd)
                 rt = rnd.choice(["float", "float", "int", "bool"])
